@@ -21,6 +21,20 @@ def programs(tier):
                          {"cancel": [], "reraise": False, "boom": []}], ["cp"]]
                 progs.append({"objects": {"g": ["gate"]}, "main": main, "tasks": {}, "env": env,
                               "label": f"crossing env={e} sh={sh} inner={inner[0][0]}"})
+    # the cancellation is caught and re-raised as a fresh CancelledError (own message), once or
+    # several times over, before it reaches the exit of the scope that has to absorb it
+    for depth in (1, 2, 3):
+        for e in ("S1", "S2", "S1S2"):
+            env = {"S1": [["set", "g"], ["cancel", "S1"]], "S2": [["set", "g"], ["cancel", "S2"]],
+                   "S1S2": [["set", "g"], ["cancel", "S1"], ["cancel", "S2"]]}[e]
+            for sh in (False, True):
+                inner = [["try", [["wait", "g"]], {"cancel": [], "rewrap": depth}]]
+                s2 = ["scope", "S2", {"shield": sh}, inner]
+                s1 = ["scope", "S1", {}, [["cp"], s2, ["cp"]]]
+                main = [["try", [["scope", "S0", {}, [s1, ["cp"]]]],
+                         {"cancel": [], "reraise": False, "boom": []}], ["cp"]]
+                progs.append({"objects": {"g": ["gate"]}, "main": main, "tasks": {}, "env": env,
+                              "label": f"rewrapped x{depth} env={e} sh={sh}"})
     # exception groups (with native and AnyIO cancellation leaves) reaching a cancelled scope
     for leaves_spec in (["caught", "native"], ["caught", "boom:XG"], ["caught", "native", "boom:XG"],
                         ["native", "boom:XG"], ["caught"], ["native"]):
